@@ -134,7 +134,7 @@ class Flow(object):
                       if p.names is not UNRESOLVED]  # type: list[t.Mapping[str, Name]] # type: ignore[misc]
             for p in pnames:
                 nameset.update(p)
-            for n in nameset:
+            for n in sorted(nameset):
                 nrow = set(r.get(n, UndefinedName(n)) for r in pnames)
                 if len(nrow) == 1:
                     # single undefined names is not possible
